@@ -1705,12 +1705,12 @@ class BrowserLikeRedirectAgent(RedirectAgent):
     @since: 13.1
     """
 
-    _redirectResponses = [http.TEMPORARY_REDIRECT]
+    # 307 and 308 must not change the request method (RFC 9110 15.4.8, 15.4.9).
+    _redirectResponses = [http.TEMPORARY_REDIRECT, http.PERMANENT_REDIRECT]
     _seeOtherResponses = [
         http.MOVED_PERMANENTLY,
         http.FOUND,
         http.SEE_OTHER,
-        http.PERMANENT_REDIRECT,
     ]
 
 
